@@ -1,5 +1,6 @@
 import Swim.Gen.Facts
 import Swim.Model.Merge
+import Swim.Model.Lifecycle
 /-!
 # C20  Lifecycle safety: Leave/Shutdown and the query API in any order and interleaving
 Logic part: a sequential model of the lifecycle stages and the outcome of each public call,
@@ -7,56 +8,6 @@ plus structural facts regenerated from the source. Data races and deadlocks amon
 goroutines are observed by the simulator (virtual time, goroutine accounting), not proved.
 -/
 namespace Swim.Lifecycle
-
-inductive Stage where
-  | joined | left | leftReaped | shutdown | leftShutdown
-  deriving DecidableEq, Repr
-
-inductive Call where
-  | members | numMembers | localNode | updateNode | sendBestEffort | sendReliable | ping
-  | healthScore | join | leave | shutdownC | protocolVersion
-  deriving DecidableEq, Repr
-
-inductive Outcome where
-  | ok            -- returns a value / nil
-  | error         -- returns an error
-  | okOrError     -- depends on the network
-  | documentedPanic
-  | PANIC | BLOCKS
-  deriving DecidableEq, Repr
-
-/-- outcome of a public call at a stage (fixed code: the local record is never reaped, UpdateNode
-after Leave returns an error instead of waiting for a broadcast that is never queued) -/
-def outcome : Stage → Call → Outcome
-  | _, .members => .ok
-  | _, .numMembers => .ok
-  | _, .localNode => .ok
-  | _, .healthScore => .ok
-  | _, .protocolVersion => .ok
-  | .joined, .updateNode => .okOrError
-  | _, .updateNode => .error
-  | _, .sendBestEffort => .okOrError
-  | _, .sendReliable => .okOrError
-  | _, .ping => .okOrError
-  | _, .join => .okOrError
-  | .joined, .leave => .okOrError
-  | .left, .leave => .ok
-  | .leftReaped, .leave => .ok
-  | .shutdown, .leave => .documentedPanic
-  | .leftShutdown, .leave => .documentedPanic
-  | _, .shutdownC => .ok
-
-def next : Stage → Call → Stage
-  | .joined, .leave => .left
-  | .joined, .shutdownC => .shutdown
-  | .left, .shutdownC => .leftShutdown
-  | .leftReaped, .shutdownC => .leftShutdown
-  | s, _ => s
-
-/-- the reaper: a departed node's own record would age out; with the fix it stays -/
-def age : Stage → Stage
-  | .left => .leftReaped
-  | s => s
 
 /-- **api_total.** Over every sequence of public calls and ageing steps, the only panic is the
 documented Leave-after-Shutdown, and no call blocks. -/
